@@ -17,7 +17,7 @@ import pickle
 import logzero
 
 from ..clock import SimClock
-from ..core import HarnessError, Violation
+from ..core import HarnessError, Violation, pickle_roundtrip
 from ..ref import specval
 from ..ref.queue import QueueMonitor, QueueViolation
 from ..rng import SimRandom
@@ -110,6 +110,7 @@ def gen_pack(rng, world, flavour=None, allow_iterative=True):
                 "split": rng.random() < 0.35,
                 "merge": dup_stats and rng.random() < 0.5,
                 "split3": rng.random() < 0.3,
+                "pe": rng.random() < 0.25,
             }
         )
     if not world["patterns"] and rng.random() < 0.7:
@@ -291,7 +292,14 @@ def gen_search(rng, tier, ruledb=None, flavour=None):
     return {
         "world": world,
         "pack": pack,
-        "config": {"ruledb": db, "expand_verified": rng.random() < 0.2, "debug": rng.random() < 0.03 and not has_track},
+        "config": {
+            "ruledb": db,
+            "expand_verified": rng.random() < 0.2,
+            "debug": rng.random() < 0.03 and not has_track,
+            # forest db: a rule cache handed over as a one-shot iterable (generator / dict view), as the
+            # signature allows (Iterable[AbstractRule])
+            "rule_cache": rng.choice([None, None, "gen", "values"]) if db == "forest" else None,
+        },
         "clock": clock,
         "rng": rg,
         "ops": ops,
@@ -357,7 +365,18 @@ class Sim:
     # -- construction ----------------------------------------------------
     def build(self):
         cfg = self.R["config"]
-        db = seams.make_ruledb(cfg["ruledb"])
+        kwargs = {}
+        if cfg.get("rule_cache") and cfg["ruledb"] == "forest":
+            cached = []
+            for st in self.allowed:
+                try:
+                    if not isinstance(st, WW.FiatVerified) and (st.verified(self.world_class) if hasattr(st, "verified") else st.applies(self.world_class)):
+                        cached.append(st(self.world_class))
+                except Exception:  # pylint: disable=broad-except
+                    continue
+            kwargs["rule_cache"] = (r for r in cached) if cfg["rule_cache"] == "gen" else dict(enumerate(cached)).values()
+            self.ctx.probe("forest_rule_cache_" + cfg["rule_cache"])
+        db = seams.make_ruledb(cfg["ruledb"], **kwargs)
         q = seams.TracingQueue(self.pack)
         self.qmon = QueueMonitor(
             [strat_id(s) for s in self.pack.inferral_strats],
@@ -757,8 +776,7 @@ def exec_ops(sim, R, ctx, on_spec, ops=None):
                     ctx.probe("status_raised_out_of_scope")
             elif k == "restart":
                 extra = sim.mirrors.objects() if sim.mirrors is not None else ()
-                b = pickle.dumps((css,) + tuple(extra))
-                restored = pickle.loads(b)
+                restored = pickle_roundtrip((css,) + tuple(extra), "C17")
                 css2 = restored[0]
                 if sim.mirrors is not None:
                     sim.mirrors.restored(css2, restored[1:])
